@@ -32,6 +32,19 @@ SKIP_PREFIXES = (
 )
 
 
+def _is_clip(stmt):
+    """torch.nn.utils.clip_grad_norm_(self.model.parameters(), self.cfg.training.gradient_clipping, ..), arguments given
+    positionally or by keyword"""
+    c = stmt.value if isinstance(stmt, ast.Expr) else None
+    if not (isinstance(c, ast.Call) and ast.unparse(c.func) == "torch.nn.utils.clip_grad_norm_"):
+        return False
+    kw = {k.arg: ast.unparse(k.value) for k in c.keywords}
+    pos = [ast.unparse(a) for a in c.args]
+    params = pos[0] if pos else kw.get("parameters")
+    norm = pos[1] if len(pos) > 1 else kw.get("max_norm")
+    return params == "self.model.parameters()" and norm == "self.cfg.training.gradient_clipping"
+
+
 def _ops(stmts, tr, path, defs):
     out = []
     for s in stmts:
@@ -57,7 +70,7 @@ def _ops(stmts, tr, path, defs):
                     bs = ast.unparse(b)
                     if bs == "self._scaler.unscale_(self.__optimizer)":
                         inner.append("Unscale")
-                    elif bs.startswith("torch.nn.utils.clip_grad_norm_(self.model.parameters(), self.cfg.training.gradient_clipping"):
+                    elif _is_clip(b):
                         inner.append("Clip")
                     else:
                         raise Untranslatable("training_loop: clipping block outside subset: %s" % bs[:60], b.lineno, path)
